@@ -11,8 +11,11 @@ import (
 	"context"
 	"encoding/hex"
 	"fmt"
+	"hash/fnv"
+	"io"
 	"sort"
 	"strings"
+	"sync"
 	"time"
 
 	"go.uber.org/thriftrw/plugin/api"
@@ -33,7 +36,7 @@ import (
 var Check = &ev.Check{
 	ID:    "C18",
 	Level: "model_checking",
-	Rule: "scenarios: (codec) every unordered pair (thorough: also triples over the core ops) of operations from a 16-operation alphabet {Encode, Decode+materialise, Decode+EvaluateValue, EncodeEnveloped, DecodeEnveloped, DecodeRequest+EncodeResponse, " +
+	Rule: "scenarios: (codec) every unordered pair (thorough: also triples over the core ops) of operations from a 21-operation alphabet {Encode (also into a destination that breaks after 5 bytes), stream write into one that breaks after 9, stream walk of a source that breaks, stream walk / Decode of a struct holding a binary above the 1 MiB threshold followed by more fields, Decode+materialise, Decode+EvaluateValue, EncodeEnveloped, DecodeEnveloped, DecodeRequest+EncodeResponse, " +
 		"ReadRequest+WriteResponse (decoding and field-skipping body, one-byte empty request), DecodeRequest of the one-byte empty request, stream primitive walk, generated ToWire->Encode, Decode->FromWire, generated stream Encode / Decode} on distinct values, one per thread; " +
 		"(sequential) every ordered pair run back to back on one thread; (frame) K in {2,3} concurrent Sends with distinct payloads on one frame.Client against an echo frame.Server; (fanout) MultiServiceGenerator.Generate over 2..3 generators with disjoint and overlapping files. " +
 		"schedules: all interleavings at scheduling points (every shim mutex/waitgroup/atomic/pool operation and every harness Read/Write/ReadAt) with at most 2 preemptions, and every sync.Pool.Get answer (fresh object or any pooled one; non-default answers count as deviations, total deviation bound 2). " +
@@ -262,6 +265,41 @@ func ops(k int) []op {
 			sw.Close()
 			return hexs(buf.Bytes()) + errs(err)
 		}},
+		{"Encode(failing writer)", func() string {
+			// the destination breaks after 5 bytes: this operation fails, and only this one
+			fw := &failAfter{limit: 5}
+			err := binary.Default.Encode(wirex.ToWire(v), vio.YieldWriter{W: fw})
+			return hexs(fw.got) + errs(err)
+		}},
+		{"StreamWrite(failing writer)", func() string {
+			fw := &failAfter{limit: 9}
+			sw := binary.Default.Writer(vio.YieldWriter{W: fw})
+			err := wirex.StreamWrite(sw, v)
+			sw.Close()
+			return hexs(fw.got) + errs(err)
+		}},
+		{"StreamWalk(failing reader)", func() string {
+			sr := binary.Default.Reader(onlyReader{vio.YieldReader{R: io.MultiReader(bytes.NewReader(enc[:7]), failReader{})}})
+			m, err := wirex.StreamRead(sr, tbin.Struct)
+			sr.Close()
+			return m.Key() + errs(err)
+		}},
+		{"StreamWalk(large binary)", func() string {
+			// a binary above the 1 MiB allocation threshold followed by more fields: the bytes
+			// handed out for it are still the caller's while the rest is read
+			sr := binary.Default.Reader(onlyReader{vio.YieldReader{R: bytes.NewReader(largeEnc(k))}})
+			m, err := wirex.StreamRead(sr, tbin.Struct)
+			sr.Close()
+			return digest(m) + errs(err)
+		}},
+		{"Decode(large binary)", func() string {
+			w, err := binary.Default.Decode(vio.YieldReaderAt{R: bytes.NewReader(largeEnc(k))}, wire.TStruct)
+			if err != nil {
+				return errs(err)
+			}
+			m, ferr := wirex.FromWire(w)
+			return digest(m) + errs(ferr)
+		}},
 		{"gen.Decode(stream)", func() string {
 			sr := binary.Default.Reader(onlyReader{vio.YieldReader{R: bytes.NewReader(hsEnc)}})
 			var x api.HandshakeResponse
@@ -270,6 +308,67 @@ func ops(k int) []op {
 			return x.String() + errs(err)
 		}},
 	}
+}
+
+// failAfter accepts limit bytes and then fails every write.
+type failAfter struct {
+	limit int
+	got   []byte
+}
+
+func (f *failAfter) Write(p []byte) (int, error) {
+	if len(f.got)+len(p) > f.limit {
+		n := f.limit - len(f.got)
+		f.got = append(f.got, p[:n]...)
+		return n, fmt.Errorf("destination broke after %d bytes", f.limit)
+	}
+	f.got = append(f.got, p...)
+	return len(p), nil
+}
+
+type failReader struct{}
+
+func (failReader) Read([]byte) (int, error) { return 0, fmt.Errorf("source broke") }
+
+var (
+	largeEncs  = map[int][]byte{}
+	largeEncMu sync.Mutex
+)
+
+// largeEnc: struct {1: binary of 1 MiB + 3 + k bytes (content distinct per k), 2: i32 k, 3: binary "tail"}.
+func largeEnc(k int) []byte {
+	k %= 4 // (the free-running pass uses fresh k every round; four distinct large values are enough)
+	largeEncMu.Lock()
+	defer largeEncMu.Unlock()
+	if b, ok := largeEncs[k]; ok {
+		return b
+	}
+	big := make([]byte, 1<<20+3+k)
+	for i := range big {
+		big[i] = byte(i*(2*k+3) + k)
+	}
+	b := tbin.Encode(st(fd(1, tbin.Value{T: tbin.Binary, B: big}), fd(2, i32(int64(k))), fd(3, bin("tail"))))
+	largeEncs[k] = b
+	return b
+}
+
+// digest: a short description of a value whose binaries may be large.
+func digest(v tbin.Value) string {
+	h := fnv.New64a()
+	var walk func(v tbin.Value)
+	walk = func(v tbin.Value) {
+		fmt.Fprintf(h, "%d/%d/%d:", v.T, v.I, len(v.B))
+		h.Write(v.B)
+		for _, f := range v.Fields {
+			fmt.Fprintf(h, "f%d", f.ID)
+			walk(f.V)
+		}
+		for _, it := range v.Items {
+			walk(it)
+		}
+	}
+	walk(v)
+	return fmt.Sprintf("digest:%016x", h.Sum64())
 }
 
 type onlyReader struct{ r vio.YieldReader }
@@ -646,16 +745,36 @@ func run(w *ev.W) {
 	a, b, c := ops(1), ops(2), ops(3)
 	var scs []*scenario
 	n := len(a)
-	core := []int{0, 1, 2, 5, 6, 7, 8, 13, 15} // ops used for triples and for "two ops, then one concurrently"
+	// ops used for triples and for "two ops, then one concurrently"
+	var core []int
+	for i, o := range a {
+		switch o.name {
+		case "Encode", "Decode", "Decode+EvaluateValue", "DecodeRequest", "ReadRequest", "ReadRequest(skip)", "ReadRequest(empty)", "gen.Decode+FromWire", "gen.Decode(stream)", "Encode(failing writer)":
+			core = append(core, i)
+		}
+	}
 	// every unordered pair of operations on two threads
+	// (the two operations on megabyte-sized values are paired with each other and with
+	// the plain Decode / stream walk / ReadRequest only: every execution copies the megabyte)
+	large := func(o op) bool { return strings.Contains(o.name, "(large binary)") }
+	partner := func(o op) bool {
+		return large(o) || o.name == "Decode" || o.name == "StreamWalk" || o.name == "ReadRequest"
+	}
+	skip := func(x, y op) bool { return (large(x) && !partner(y)) || (large(y) && !partner(x)) }
 	for i := 0; i < n; i++ {
 		for j := i; j < n; j++ {
+			if skip(a[i], b[j]) {
+				continue
+			}
 			scs = append(scs, codecScenario(fmt.Sprintf("pair:%s||%s", a[i].name, b[j].name), [][]op{{a[i]}, {b[j]}}))
 		}
 	}
 	// every ordered pair back to back on one thread (stale state in recycled objects)
 	for i := 0; i < n; i++ {
 		for j := 0; j < n; j++ {
+			if skip(a[i], b[j]) {
+				continue
+			}
 			scs = append(scs, codecScenario(fmt.Sprintf("seq:%s;%s", a[i].name, b[j].name), [][]op{{a[i], b[j]}}))
 		}
 	}
